@@ -52,6 +52,13 @@ def tails(label_len, quick):
             ("second-label", b"x = 5\nEND\n"), ("garbage-syntax", b"= = = ((( {"),
             ("open-quote", b'"unterminated'), ("open-comment", b"/* open comment"),
             ("continuation-byte-first", b"\x80abc")]
+    # runs of multi-byte characters that cross the 8 KiB buffer boundaries at every alignment,
+    # followed by an undecodable byte
+    for ch in ("\u00e9", "\u4e2d", "\U0001F600"):
+        for pad in range(len(ch.encode("utf-8")) + 1):
+            n = 18000 // len(ch.encode("utf-8"))
+            out.append(("multibyte-run-%d-pad%d" % (len(ch.encode("utf-8")), pad),
+                        b"x" * pad + (ch * n).encode("utf-8") + b"\xff\xfejunk"))
     if not quick:
         out.append(("long-ascii-run", b"abc" * 40000))
     else:
@@ -189,6 +196,14 @@ def dump_modules():
             P([])]
 
 
+def _strip(data, head, tail):
+    """the bytes between the header and the trailer, or the whole thing marked as
+    misplaced when they are not where they were written"""
+    if data.startswith(head) and data.endswith(tail):
+        return data[len(head):len(data) - len(tail)]
+    return b"<<out of order>>" + data
+
+
 def shard_dump(spec):
     import pvl
     mi, encname = spec
@@ -217,6 +232,26 @@ def shard_dump(spec):
             with open(p, "wb") as f:
                 return pvl.dump(m, f, **kw)
         targets.append(("binary-stream", bin_stream, lambda: open(p, "rb").read(), "bytes"))
+
+        def text_after_header():
+            with open(p, "w", encoding="utf-8", newline="") as f:
+                f.write("/* header */")          # not flushed before the dump
+                r = pvl.dump(m, f, **kw)
+                f.write("/* trailer */")
+                return r
+        targets.append(("text-stream-with-other-writes", text_after_header,
+                        lambda: _strip(open(p, "rb").read(), b"/* header */", b"/* trailer */"), "chars"))
+        for encoding in ("latin-1", "utf-16-le"):
+            try:
+                enc_want = want.encode(encoding)
+            except UnicodeEncodeError:
+                continue
+
+            def text_enc(encoding=encoding):
+                with open(p, "w", encoding=encoding, newline="") as f:
+                    return pvl.dump(m, f, **kw)
+            targets.append(("text-stream-" + encoding, text_enc,
+                            lambda encoding=encoding: open(p, "rb").read().decode(encoding).encode("utf-8"), "chars"))
         bio, sio = io.BytesIO(), io.StringIO()
         targets.append(("BytesIO", lambda: pvl.dump(m, bio, **kw), lambda: bio.getvalue(), "bytes"))
         targets.append(("StringIO", lambda: pvl.dump(m, sio, **kw), lambda: sio.getvalue().encode("utf-8"), "chars"))
@@ -236,7 +271,7 @@ def shard_dump(spec):
                 acc.violation(case, "dump-writes-other-text:" + name, "dumps gives %r, the target holds %r"
                               % (want[:120], got[:120]), sig="dump-differs|%s|%s" % (name, encname))
                 continue
-            ok_len = (ret == len(want)) or (ret == len(wb))
+            ok_len = (ret == len(want)) or (ret == len(wb) and unit == "bytes")
             if ascii_only:
                 ok_len = ret == len(want)
             if not ok_len:
